@@ -10,7 +10,11 @@ CONSTANTS Reqs,          \* catalogue: sequence of views of arriving requests
           BlockVals,     \* sequence of rule lists the environment may set block_list to
           BoolOpts,      \* subset of {"anticache", "anticomp", "strip_ech", "http3"} the environment toggles
           Dns,           \* catalogue: sequence of answer sections
-          FirstMatchOnly,\* FALSE = the code: BlockList.request has no break, every matching rule is applied in turn
+          KillEndsLoop,  \* TRUE = the code since e416bb69b: BlockList.request returns after flow.kill(); FALSE = before:
+                         \* the loop went on and a second matching 444 rule raised ControlException (finding X07-F1).
+                         \* Ordinary status rules never end the loop: the LAST matching one decides the status.
+          EmptyEntryRefused, \* TRUE = the code since 9b5994b83: parse_spec("") raises ValueError -> OptionsError;
+                         \* FALSE = before: IndexError, only logged, option accepted, items truncated (finding X07-F2)
           MaxOps
 VARIABLES sa, ac, acomp, bl, ech, h3,     \* ctx.options.* (bl = BlockList.items, sa = StickyAuth.flt)
           hosts,                           \* StickyAuth.hosts: set of <<host, value>>
@@ -50,13 +54,14 @@ SetSticky(i) ==
      /\ sa' = IF f.op = "bad" THEN sa ELSE f
      /\ Emit(<<ConfEv("stickyauth", f, f.op # "bad")>>)
 \* BlockList.configure: items = [], parse_spec for every entry; the first failing entry raises OptionsError (the
-\* rollback re-parses the old list).  An EMPTY entry dies with IndexError in option[0]: not an OptionsError, so the
-\* addon manager only logs it -- the option is accepted and items keeps what was parsed so far.
+\* rollback re-parses the old list).  An EMPTY entry is refused like any other malformed one (EmptyEntryRefused); before
+\* 9b5994b83 it died with IndexError in option[0]: not an OptionsError, so the addon manager only logged it -- the
+\* option was accepted and items kept what was parsed so far.
 RECURSIVE Parse(_)
 Parse(rules) ==
   IF rules = <<>> THEN [items |-> <<>>, res |-> "ok"]
   ELSE LET r == Head(rules) IN
-       IF r.form = "empty" THEN [items |-> <<>>, res |-> "logged"]
+       IF r.form = "empty" /\ ~EmptyEntryRefused THEN [items |-> <<>>, res |-> "logged"]
        ELSE IF RuleBad(r) THEN [items |-> <<>>, res |-> "refused"]
        ELSE LET t == Parse(Tail(rules)) IN [t EXCEPT !.items = <<r>> \o @]
 SetBlockList(i) ==
@@ -82,18 +87,17 @@ Advance(v, exc, a) ==
 
 Killable(v) == v.live /\ ~v.killed                 \* Flow.killable
 Kill(v) == [v EXCEPT !.killed = TRUE, !.live = FALSE]   \* Flow.kill()
-\* BlockList.request: for spec in self.items: if spec.matches(flow): mark; kill() or make a response -- and go on
+\* BlockList.request: for spec in self.items: if spec.matches(flow): mark; kill() and return, or make a response and go on
 RECURSIVE BlLoop(_, _)
 BlLoop(rules, v) ==
   IF rules = <<>> THEN [v |-> v, exc |-> ""]
   ELSE LET r == Head(rules) IN
        IF ~Holds(r.flt, v) THEN BlLoop(Tail(rules), v)
-       ELSE LET v1 == [v EXCEPT !.mark = TRUE]
-                rest == IF FirstMatchOnly THEN <<>> ELSE Tail(rules) IN
+       ELSE LET v1 == [v EXCEPT !.mark = TRUE] IN
             IF r.st = NoResponse
-            THEN IF Killable(v1) THEN BlLoop(rest, Kill(v1))
+            THEN IF Killable(v1) THEN BlLoop(IF KillEndsLoop THEN <<>> ELSE Tail(rules), Kill(v1))
                  ELSE [v |-> v1, exc |-> "ControlException"]          \* kill() of a flow that is already killed
-            ELSE BlLoop(rest, [v1 EXCEPT !.resp = r.st, !.rbody = FALSE])
+            ELSE BlLoop(Tail(rules), [v1 EXCEPT !.resp = r.st, !.rbody = FALSE])
 BlockListRequest ==
   /\ Live /\ At("blocklist")
   /\ UNCHANGED <<sa, ac, acomp, bl, ech, h3, hosts, nops>>
